@@ -302,6 +302,87 @@ R.contract(
 
 NATIVE = {"helpers": {"list_of": list, "paths_of": lambda self_: self_.raw_schema.get("paths", {})}}
 
+# ------------------------------------------------------------------------------------------------- resolve_all: every reference in a definition is replaced by what it points to
+REFS = "schemathesis.specs.openapi.references:"
+_TABLE = {"#/components/x": {"type": "string", "maxLength": 3}, "#/components/y": {"$ref": "#/components/x"},
+          "#/components/z": {"type": "object", "properties": {"p": {"$ref": "#/components/y"}}, "required": ["p"]}}
+
+
+def _resolver_methods():
+    from pyvc.interp import PyExc
+
+    def resolve(it, obj, a, k):
+        ref = a[0]
+        it.ghost["scope_log"] = it.ghost["scope_log"] + [("resolve", ref)]
+        if ref not in _TABLE:
+            raise PyExc(it.make_exc(it.resolve_exc_class("RefResolutionError", None), ()))
+        return (ref, it.B._deepcopy(_TABLE[ref], {}))
+
+    def push(it, obj, a, k):
+        it.ghost["scope_log"] = it.ghost["scope_log"] + [("push", a[0])]
+
+    def pop(it, obj, a, k):
+        it.ghost["scope_log"] = it.ghost["scope_log"] + [("pop",)]
+
+    def resolve_all(it, obj, a, k):
+        from pyvc.verify import locate
+
+        _, _, fn = locate(it, REFS + "InliningResolver.resolve_all")
+        return it.call_function(fn, [obj] + list(a), dict(k))
+
+    return {"resolve": resolve, "push_scope": push, "pop_scope": pop, "resolve_all": resolve_all}
+
+
+R.nominal_methods["spec:ScopedResolver"] = _resolver_methods()
+
+
+def _expanded(it, v):
+    """Specification: the definition with every `$ref` replaced, recursively, by the (expanded) document it names."""
+    if isinstance(v, dict):
+        if isinstance(v.get("$ref"), str):
+            return _expanded(it, _TABLE[v["$ref"]])
+        return {k: _expanded(it, x) for k, x in v.items()}
+    if isinstance(v, list):
+        return [_expanded(it, x) for x in v]
+    return v
+
+
+def _balanced(it, log):
+    depth = 0
+    for e in log:
+        if e[0] == "push":
+            depth += 1
+        elif e[0] == "pop":
+            depth -= 1
+            if depth < 0:
+                return False
+    return depth == 0
+
+
+R.spec_funcs.update({"expanded": _expanded, "balanced": _balanced})
+_Leafs = [{"type": "integer"}, {"$ref": "#/components/x"}, {"$ref": "#/components/y"}, {"$ref": "#/components/z"}, {"$ref": "#/components/missing"}]
+_Docs = _Leafs + [{"schema": l, "name": "n"} for l in _Leafs] + [{"parameters": [{"in": "query", "schema": l}, {"$ref": "#/components/x"}]} for l in _Leafs[:3]] + \
+        [{"allOf": [a, b]} for a in _Leafs[:3] for b in _Leafs[1:4]]
+R.contract(
+    REFS + "InliningResolver.resolve_all",
+    prop="C08",
+    args={"self": Obj("spec:ScopedResolver"), "item": Choice(*_Docs), "recursion_level": Const(0)},
+    ghost={"scope_log": []},
+    raises=["RefResolutionError"],
+    ensures={
+        # "effective parameters": what the operation is offered with is the definition with every reference replaced by its target, at any depth
+        "every_reference_replaced_by_its_target": "result == expanded(old(deep(item)))",
+        "the_document_itself_is_not_modified": "item == old(deep(item))",
+        "resolution_scopes_are_balanced": "balanced(ghost('scope_log'))",
+    },
+    raises_ensures={
+        "fails_only_for_a_dangling_reference_and_leaves_no_scope_behind": "raised == 'RefResolutionError' and any(e[0] == 'resolve' and e[1] == '#/components/missing' for e in ghost('scope_log')) and balanced(ghost('scope_log'))",
+    },
+    bounded_note="a fixed table of 3 component definitions (one chained, one nested) and %d documents referring to them; reference cycles (RECURSION_DEPTH_LIMIT) not explored" % len(_Docs),
+    replayable=False,
+)
+R.spec_funcs.setdefault("deep", lambda it, v: it.B._deepcopy(v, {}))
+
 LEVEL_TEXT = ("Deductive: cache representation invariant (inductive over insertions = every access order), operationId index scope rule, effective-parameter rule; "
               "maps and lists explored up to 2 entries (labelled bounded). Reference resolution and YAML loading are trusted.")
 LEVEL_NOTE = "Trusted: jsonschema reference resolution (E3), parameter object constructors, PyYAML (E6), pyvc semantics (E9)."
